@@ -76,7 +76,7 @@ func scenarioHistory(c *harness.Ctx) {
 	if !s.CheckFresh("the whole history") {
 		return
 	}
-	for k := range s.Model {
+	for _, k := range regionsim.SortedKeys(s.Model) {
 		if !s.Read(k) {
 			return
 		}
